@@ -270,7 +270,21 @@ func (t *Table) fetchQueryData(input QueryInput) (*index, []string) {
 	return nil, t.SortedKeys
 }
 
-func prepareSearch(input *QueryInput, index *index, k, startKey string) (string, bool) {
+// afterStartKey tells whether the entry (k, pk) is positioned after the exclusive start key in the scan direction.
+// Entries are ordered by (k, pk); for the base table k and pk are the same string.
+func afterStartKey(k, pk, startIndexKey, startKey string, forward bool) bool {
+	if k != startIndexKey {
+		return (k > startIndexKey) == forward
+	}
+
+	if pk != startKey {
+		return (pk > startKey) == forward
+	}
+
+	return false
+}
+
+func prepareSearch(input *QueryInput, index *index, k, startIndexKey, startKey string) (string, bool) {
 	pk, ok := getPrimaryKey(index, k)
 	if !ok {
 		return pk, ok
@@ -280,8 +294,20 @@ func prepareSearch(input *QueryInput, index *index, k, startKey string) (string,
 		return pk, true
 	}
 
-	if pk == startKey {
+	if startIndexKey == "" {
+		// the start key has no known position in this index: wait for the item itself
+		if pk == startKey {
+			input.started = true
+		}
+
+		return "", false
+	}
+
+	// resume by position, the item named by the start key may no longer exist
+	if afterStartKey(k, pk, startIndexKey, startKey, input.ScanIndexForward) {
 		input.started = true
+
+		return pk, true
 	}
 
 	return "", false
@@ -334,6 +360,14 @@ func (t *Table) SearchData(input QueryInput) ([]map[string]*types.Item, map[stri
 
 	startKey := t.parseStartKey(t.KeySchema, exclusiveStartKey)
 	input.started = startKey == ""
+	startIndexKey := startKey
+
+	if index != nil {
+		startIndexKey = t.parseStartKey(index.keySchema, exclusiveStartKey)
+		if startIndexKey == "" {
+			startIndexKey = index.refs[startKey]
+		}
+	}
 	last := map[string]*types.Item{}
 	sortedKeysSize := int64(len(sortedKeys))
 
@@ -347,7 +381,7 @@ func (t *Table) SearchData(input QueryInput) ([]map[string]*types.Item, map[stri
 	for pos := range sortedKeys {
 		k := GetKeyAt(sortedKeys, sortedKeysSize, int64(pos), forward)
 
-		pk, ok := prepareSearch(&input, index, k, startKey)
+		pk, ok := prepareSearch(&input, index, k, startIndexKey, startKey)
 		if !ok {
 			scanned++
 			continue
